@@ -703,6 +703,15 @@ impl<'a, 'tcx> BodyCx<'a, 'tcx> {
                 // fixed-length array / slice pattern `[a, b, c]`
                 vec![("k", s("pslice")), ("pats", J::Arr(before.iter().map(|p| self.pat(p)).collect()))]
             }
+            hir::PatKind::Slice(before, Some(mid), after) if matches!(mid.kind, hir::PatKind::Wild) => {
+                // `[a, b, .., y, z]`: elements from the front and from the back, the rest ignored
+                vec![
+                    ("k", s("pslice")),
+                    ("pats", J::Arr(before.iter().map(|p| self.pat(p)).collect())),
+                    ("rest", J::Bool(true)),
+                    ("after", J::Arr(after.iter().map(|p| self.pat(p)).collect())),
+                ]
+            }
             other => vec![("k", s("pother")), ("dbg", s(format!("{:?}", other).chars().take(80).collect::<String>()))],
         };
         v.push(("ty", s(self.typeck.pat_ty(p).to_string())));
